@@ -1152,6 +1152,16 @@ def bounded_noise_level_oracle(haar, c, h):
             if m <= h and abs(conv[k]) + m * dl > top + tol:
                 return 'C11_noise_peak_location', 'h=%d: |conv| drops by less than (D - 4 eps)/scale per bin near t (k=%d)' % (h, k), \
                     {'code': abs(conv[k]), 'expected': top - m * dl}
+    if wt is not None:
+        # C11_noise_peak_within_d_weighted: the smallest d with 4 h eps wmax < d D wmin (exact arithmetic on the dyadic inputs)
+        wmin, wmax = Fraction(min(wt)), Fraction(max(wt))
+        dmin = int((4 * h * Fraction(eps) * wmax) / (Fraction(D) * wmin)) + 1
+        if 1 <= dmin <= h:
+            for k in range(n):
+                if abs(k - t) >= dmin and not abs(conv[k]) < top:
+                    return 'C11_noise_peak_within_d_weighted', ('h=%d: weights in [%s, %s], 4 h eps wmax < d D wmin for d=%d, yet |conv(%d)| at '
+                                                                'distance %d is not strictly below |conv(t)|'
+                                                                % (h, wmin, wmax, dmin, k, abs(k - t))), {'code': conv[k], 'expected': top}
     am = max(range(n), key=lambda i: abs(conv[i]))
     if (wt is None and am != t) or abs(am - t) > h - 1:
         return ('C11_noise_peak_location' if wt is None else 'C11_noise_step_weighted',
@@ -1585,7 +1595,11 @@ def run(ck, scratch):
                'distance >= h, strict maximum exactly at t and the per-bin drop (unweighted), argmax within h-1 (weighted), t among the '
                'peaks and every other peak at distance >= h and noise-sized, thresholds in the gap keep exactly [t]; then haarSeg with the '
                'thresholds the code itself computes (FDRThres tapped): where they satisfy the hypotheses of C11_noise_step_seg / '
-               'C11_noise_flat the breakpoints must be exactly [t] / none and the means within eps; HaarConv at h=2 and 32 also against the model. '
+               'C11_noise_flat, or where no p-value passes at any level (the fallback regime of C11_noise_step_seg_fallback / '
+               'C11_noise_flat_fallback, p-values recomputed with scipy as the code does), the breakpoints must be exactly [t] / none as the '
+               'theorem says and the means within eps; weighted: every position at distance >= d strictly below |conv(t)| for the '
+               'smallest d with 4 h eps wmax < d D wmin; corpus/c11.json bounded_noise: fixed worst-pattern cases and the sharpness '
+               'witness D = 4 eps (tie conv(t+1) = conv(t)); HaarConv at h=2 and 32 also against the model. '
                'monitoring: generated step/flat/mixed profiles per the quantifier through '
                'do_segmentation, stratified over direction and sign, weight pattern, bin-size regime and noise level. '
                'non-trivial = non-zero convolution / at least one peak / both lists non-empty / at least one breakpoint / every profile')
@@ -1609,7 +1623,13 @@ def run(ck, scratch):
         '(C11_noise_local_peaks, C11_local_peaks_sound); with the FDR threshold of each level as an oracle value in that range the '
         'whole of haarSeg returns exactly the breakpoint t and means within eps of a, b (C11_noise_step_seg, _level_addon); flat '
         'profiles: every value within the noise bound at every half-width, no peak survives a threshold above it, one segment with '
-        'mean within eps (C11_noise_flat); weighted step: absolute bounds, maximum within h-1 of t (C11_noise_step_weighted); the '
+        'mean within eps (C11_noise_flat); in the fallback branch of FDRThres (no passing p-value: the code\'s regime for every step '
+        'of height <= 1) nothing is assumed about the threshold value: haarSeg returns exactly [t] iff some level absorbs the 1e-16 '
+        '(|peak| >= 1 in binary64) or has t as its only peak, nothing otherwise, and a flat profile stays one segment '
+        '(C11_fdr_fallback_level/_none, C11_noise_level_addon_fallback, C11_noise_step_seg_fallback, C11_noise_flat_fallback); '
+        'weighted step, any positive weights: absolute bounds, maximum within h-1 of t (C11_noise_step_weighted); weights in '
+        '[wmin, wmax]: the weighted tent falls by at least wmin/(h wmax) per bin, so 4 h eps wmax < d D wmin puts the maximum within '
+        'd-1 bins of t (C11_noise_peak_within_d_weighted, C11_weighted_tent_slope); the '
         'property\'s numbers: height >= 0.585, >= 100 bins per side, ANY noise with |e_i| <= 0.146 (0.25 for the one-copy steps) '
         '(C11_noise_property_numbers). The model is tied to '
         'cnvlib.segmentation.haar by differential correspondence on dyadic inputs (HaarConv, FindLocalPeaks, FDRThres, UnifyLevels, '
@@ -1628,8 +1648,14 @@ def run(ck, scratch):
         'D/4, (ii) the FDR threshold (normal-cdf p-values of the peaks against a MAD noise estimate: an oracle value in the theorems, '
         'which hold for every threshold between the noise bound and the peak floor), (iii) the Savitzky-Golay pre-smoothing that '
         'cnvkit applies before haarSeg (the smoothed profile is not clean-step-plus-bounded-noise)',
-        'unequal weights with noise: only the absolute bounds are proved (maximum of |conv| within h-1 bins of t, 1 bin at level 1); '
-        'the exact-location statement is proved for the unweighted convolution only (cnvkit passes weights, so the real pipeline is in the weighted case)',
+        'unequal weights with noise (cnvkit passes the bin weights, so the real pipeline is in this case): proved are the absolute '
+        'bounds and the slope form -- maximum of |conv| within d-1 bins of t when 4 h eps wmax < d D wmin (weights in [1/2, 1]: '
+        '8 h eps < d D, i.e. exactly at t at level 1 for eps < D/16, within 5 bins at level 5 for eps < 3 D/128); the sharp '
+        '"exactly at t for eps < D/4 at every level" and the statement about FindLocalPeaks / the whole of haarSeg are proved for the '
+        'unweighted convolution only',
+        'which of the two FDR branches is taken (a p-value passes or not) and whether the flat profile\'s levels have 0 or >= 2 '
+        'peaks are properties of the noise realisation: hypotheses of the fallback theorems, observed (coverage.bounded_noise.'
+        'fallback_theorems) but not proved',
         'SAMPLED, NOT PROVED: everything about hmm-germline (pomegranate Baum-Welch fit, MAP decoding, squash_by_groups): '
         'coverage.monitoring.hmm-germline; outside the model',
         'two clean steps: which of the two peaks survive the two-peak FDR threshold depends on the p-value oracle and on the 1e-16 float '
